@@ -1094,8 +1094,24 @@ func (s *BgpServer) getBestFromLocalCallbackLocked(peer *peer, rfList []bgp.Fami
 	}
 
 	for _, family := range peer.toGlobalFamilies(rfList) {
+		addPath := peer.isAddPathSendEnabled(family)
+		sendMax := int(peer.getAddPathSendMax(family))
+		// paths per prefix put into this batch that the peer does not hold yet
+		added := map[string]int{}
 		for _, path := range s.getPossibleBest(peer, family) {
 			if p := s.filterpath(peer, path, nil); p != nil {
+				if addPath && !peer.hasPathAlreadyBeenSent(p) {
+					// the full table is subject to send-max like every
+					// later update: what does not fit is held back and
+					// takes the place of a path that is withdrawn later
+					prefix := p.GetPrefix()
+					if int(peer.getRoutesCount(family, prefix))+added[prefix] >= sendMax {
+						peer.setPathSendMaxFiltered(p)
+						continue
+					}
+					added[prefix]++
+					peer.unsetPathSendMaxFiltered(p)
+				}
 				pathList = append(pathList, p)
 			} else {
 				filtered = append(filtered, filteredPathForPeer(peer, path))
